@@ -693,7 +693,7 @@ def oracle_C16(rs, n, ctx):
                 break
         if E.grid.min() < v.min() - 1e-12 * abs(v.min()) or E.grid.max() > v.max() + 1e-12 * abs(v.max()) or not np.isfinite(E.grid).all():
             R.violate("C16:resample-range", f"values [{E.grid.min()!r}, {E.grid.max()!r}] leave [{v.min()!r}, {v.max()!r}]", rep)
-        if kind == "homog" and not (E.grid == v.flat[0]).all():
+        if kind == "homog" and np.abs(E.grid - v.flat[0]).max() > 1e-12 * abs(v.flat[0]):
             R.violate("C16:resample-constant", "constant model not preserved", rep)
         if kind == "layered":
             ax = [a for a in range(nd) if not np.all(np.diff(v, axis=a) == 0)]
